@@ -129,18 +129,19 @@ def packCoils (coils : List Bool) (bytes : Bytes) : Res (Nat × Bytes) :=
   if bytes.length < packedSize then .err .bufferSize
   else (packLoop coils 0 (List.replicate packedSize 0 ++ bytes.drop packedSize)).map (fun b => (packedSize, b))
 
+/-- the read loop of `unpack_coils`: `coils[i] = (bytes[i / 8] >> (i % 8)) & 1 > 0` for `i` in `0..count`;
+    `n` items remain, `acc` holds the items written so far (newest first) -/
 def unpackLoop (bytes : Bytes) : Nat → Nat → List Bool → Res (List Bool)
-  | 0, _, out => .ok out
-  | n + 1, i, out =>
+  | 0, _, acc => .ok acc.reverse
+  | n + 1, i, acc =>
     match bytes[i / 8]? with
-    | some x =>
-      if i < out.length then unpackLoop bytes n (i + 1) (out.set i (bitOf x (i % 8))) else .panic
+    | some x => unpackLoop bytes n (i + 1) (bitOf x (i % 8) :: acc)
     | none => .panic
 
 /-- `unpack_coils(bytes, count, coils)`; returns the output slice afterwards -/
 def unpackCoils (bytes : Bytes) (count : UInt16) (coils : List Bool) : Res (List Bool) :=
   if coils.length < count.toNat ∨ bytes.length < packedCoilsLen count.toNat then .err .bufferSize
-  else unpackLoop bytes count.toNat 0 coils
+  else (unpackLoop bytes count.toNat 0 []).map (fun bs => bs ++ coils.drop count.toNat)
 
 /-- `Coils::from_bools(bools, target)`; the value keeps the whole target slice -/
 def Coils.fromBools (bools : List Bool) (target : Bytes) : Res Coils :=
@@ -186,19 +187,20 @@ def wordsBytes : List UInt16 → Bytes
   | [] => []
   | w :: ws => be16 w ++ wordsBytes ws
 
-/-- the store loop of `from_words`: `BigEndian::write_u16(&mut target[i * 2..], w)` for each word -/
-def Data.writeWords : List UInt16 → Nat → Bytes → Res Bytes
-  | [], _, t => .ok t
-  | w :: ws, i, t =>
-    match writeAt t (i * 2) (be16 w) with
-    | .ok t' => Data.writeWords ws (i + 1) t'
-    | .err e => .err e
-    | .panic => .panic
+/-- the store loop of `from_words`: `BigEndian::write_u16(&mut target[i * 2..], w)` for each word.
+    The loop writes at offsets 0, 2, 4, …, so it is modelled with a cursor: `acc` holds the bytes
+    already written (newest first), the third argument is `target[i * 2..]`; it panics exactly when
+    fewer than two bytes remain. -/
+def Data.writeWords : List UInt16 → Bytes → Bytes → Res Bytes
+  | [], rest, acc => .ok (acc.reverse ++ rest)
+  | w :: ws, _ :: _ :: rest, acc =>
+    Data.writeWords ws rest (UInt8.ofNat (w.toNat % 256) :: UInt8.ofNat (w.toNat / 256) :: acc)
+  | _ :: _, _, _ => .panic
 
 /-- `Data::from_words(words, target)`: writes the words big-endian and keeps `&target[..2n]` -/
 def Data.fromWords (words : List UInt16) (target : Bytes) : Res Data :=
   if words.length * 2 > target.length ∨ words.isEmpty then .err .bufferSize
-  else (Data.writeWords words 0 target).map
+  else (Data.writeWords words target []).map
     (fun t => { data := t.take (words.length * 2), quantity := words.length })
 
 def Data.len (d : Data) : Nat := d.quantity
